@@ -161,6 +161,10 @@ def bit_split(vals, widths):
     return inner.args[0]
 
 
+def codec_name(enc):
+    return enc.lower().replace('-', '').replace('_', '')
+
+
 def bytestring_like(e):
     """raw bytes, encoded text, an array of single bytes, or a run of constant single bytes."""
     if e.kind in ('raw', 'text'):
@@ -369,6 +373,10 @@ class Matcher:
                 self.c.diffs.append(Diff('width', '%s: constant of %s bytes vs raw of %s' % (where, w, other.size), a, b))
             return True
         if bytestring_like(a) and bytestring_like(b):
+            if ka == 'text' and kb == 'text':
+                ea, eb = a.extra.get('enc'), b.extra.get('enc')
+                if ea != eb and isinstance(ea, str) and isinstance(eb, str) and codec_name(ea) != codec_name(eb):
+                    self.c.diffs.append(Diff('width', '%s: text encoding %s vs %s' % (where, ea, eb), a, b))
             return True
         if ka.startswith('t:') and kb.startswith('t:'):
             return text_compatible(ka[2:], kb[2:])
